@@ -159,7 +159,7 @@ PROPS["C08"] = {
 }
 
 RULES["C09"] = ("fault points: workflow in {factory, poweron, period} x {sequential, parallel} and single-shot; failure kind in {io.EOF, io.ErrUnexpectedEOF, custom error, error returned with a partial read, "
-                "transient error followed by more data, an error of its own concrete type followed by io.EOF, a one-off error returned together with a partial read, a never-ending error that claims Temporary() == true}; offset enumerated: SingleDetect every offset for numByte in {16,40,1280}; periodic workflows every sample boundary -1/0/+1, first/last three offsets, two interior ones; "
+                "transient error followed by more data, an error of its own concrete type followed by io.EOF, a one-off error returned together with a partial read, an *os.PathError (EIO) on every Read, io.EOF followed by *os.PathError, a never-ending error that claims Temporary() == true}; offset enumerated: SingleDetect every offset for numByte in {16,40,1280}; periodic workflows every sample boundary -1/0/+1, first/last three offsets, two interior ones; "
                 "10^6-bit workflows offsets {0,1,mid-sample,sample-1,sample,sample+1} (thorough: also deep/last-sample offsets); plus rapid-drawn offsets, read-delay plans and GOMAXPROCS for the parallel variants. "
                 "oracle: returns (false, err != nil); 'returns' is decided by a quiescence detector (three consecutive 100 ms snapshots in which every goroutine with a library frame is parked on a channel/semaphore/mutex) "
                 "not by a stopwatch (a workflow that is still reading after 10^6 failed Reads of a permanently failing source is judged a livelock); afterwards the library goroutines drain back to the baseline. non-trivial: at least one full sample was delivered before the failure (single-shot: offset > 0). distinct: hash of the case JSON.")
@@ -255,21 +255,23 @@ PROPS["C17"] = {
 
 RULES["C18"] = ("a plan of 2..64 goroutines, each assigned a drawn test (the fifteen registry tests through runner / byte entry point / bit entry point with a documented parameter, Round12, Round15) and one of 1..4 shared inputs "
                 "(1200..4000 bytes and their bit expansions; uniform, biased, markov, periodic, sparse; one case in four 16..60 bytes; one case in six 9000..130000 bytes with the cheaper tests only), GOMAXPROCS in {2,4,16}. oracle: every task computed alone first, then once more (determinism, bit-identical), then all released from a barrier: "
-                "each concurrent result bit-identical to the solitary one, every input slice equal to its snapshot afterwards; the same check also runs in a -race binary (a race report is a violation). Deterministic shards call every test x documented parameter x entry point 70000 times in a row (1.2 million thorough; more than a 16-bit / 20-bit counter holds), alternating between two inputs of different length: every result bit-identical to the first one for that input. One case in four uses the shortest admissible inputs (128..480 bits). "
+                "each concurrent result bit-identical to the solitary one, every input slice equal to its snapshot afterwards; the same check also runs in a -race binary (a race report is a violation). Deterministic shards call every test x documented parameter x entry point 70000 times in a row (1.2 million thorough; more than a 16-bit / 20-bit counter holds), alternating between two inputs of different length: every result bit-identical to the first one for that input. One case in four uses the shortest admissible inputs (128..480 bits). Three deterministic shards call every test (default parameter, both entry points) three times on 6- and 12-million-bit inputs: bit-identical. "
                 "non-trivial: at least two goroutines share an input and at least two distinct tests run. distinct: hash of the case JSON.")
 PROPS["C18"] = {
     "level": "exploration",
     "quick": shards(4, "TestC18", 60, floor=20) + shards(3, "TestC18", 25, race=True, floor=8, weight=3)
-             + [S("TestC18ManyCalls", floor=5, env={"VERIF_PARTS": 4, "VERIF_PART": i}) for i in range(4)],
+             + [S("TestC18ManyCalls", floor=5, env={"VERIF_PARTS": 4, "VERIF_PART": i}) for i in range(4)]
+             + [S("TestC18Huge", floor=3, env={"VERIF_PARTS": 3, "VERIF_PART": i}) for i in range(3)],
     "thorough": shards(8, "TestC18", 4000, floor=1000, timeout=3400) + shards(6, "TestC18", 800, race=True, floor=200, weight=2, timeout=3400)
-             + [S("TestC18ManyCalls", floor=5, env={"VERIF_PARTS": 8, "VERIF_PART": i, "VERIF_CALLS": 1200000}, timeout=3400) for i in range(8)],
+             + [S("TestC18ManyCalls", floor=5, env={"VERIF_PARTS": 8, "VERIF_PART": i, "VERIF_CALLS": 1200000}, timeout=3400) for i in range(8)]
+             + [S("TestC18Huge", floor=3, env={"VERIF_PARTS": 3, "VERIF_PART": i}) for i in range(3)],
     "assumptions": ["interleavings are sampled (barrier release, GOMAXPROCS), not enumerated", "the race detector only sees races on executed paths"],
 }
 
 RULES["C13"] = ("a directory tree in a scratch dir: 1..40 sample files (2*10^4 scale; 1..3 at 10^6; 1..4 short files for the 10^8 worker), suffix .bin/.dat, base names from [a-zA-Z0-9_-] and, one in four, from characters special to formatters/shells/CSV readers such as '%', space, quotes, brackets, non-ASCII (duplicates across sub-directories allowed), nesting depth 0..3, "
                 "0..5 non-sample files of other suffixes, sometimes a directory whose name ends in .bin/.dat; contents uniform/biased/markov/periodic/constant/sparse/run-list; -n in 1..64, GOMAXPROCS in {1,2,16}; the input directory is given as an absolute path, as 'in', './in', '../<dir>/in', with a trailing slash, or is a directory whose name starts with a dot; in a third of the runs the -o path already holds an older report (1 byte .. 400 KB). The built rddetector binary is run "
                 "end to end at the 2*10^4 and 10^6 scales; worker_1E8 is driven directly through a go test -overlay shim on 100000..200000-bit files; main's scale switch for 10^8 is observed on sparse 12.5 MB files (header line read, process killed). "
-                "One deterministic shard processes 1100 files (3000 thorough) in nested directories with 3 and with 64 workers under the usual descriptor limit of 1024. Some shards pin 'one worker, >= 2-3 files' (a worker then handles consecutive files) and some run a -race build of the binary / shim (a race report is a violation). oracle: exit status 0 within the budget (a stuck child gets SIGQUIT: all goroutines blocked = violation, merely slow = inconclusive); report = the scale's header + exactly one row per sample file (multiset on base names, rows of equal name matched by values); "
+                "One deterministic shard runs the 10^6 scale with 2 and 3 workers on 13 / 18 files of which two take ten times longer than the rest (results finish far out of order). One deterministic shard processes 1100 files (3000 thorough) in nested directories with 3 and with 64 workers under the usual descriptor limit of 1024. Some shards pin 'one worker, >= 2-3 files' (a worker then handles consecutive files) and some run a -race build of the binary / shim (a race report is a violation). oracle: exit status 0 within the budget (a stuck child gets SIGQUIT: all goroutines blocked = violation, merely slow = inconclusive); report = the scale's header + exactly one row per sample file (multiset on base names, rows of equal name matched by values); "
                 "every cell equals, to 6 decimals (+-1 unit), the library's P/Q value for the test, parameter and component that the header column names. non-trivial: >= 2 files and a worker count different from the file count. distinct: hash of the case JSON.")
 PROPS["C13"] = {
     "level": "exploration",
@@ -279,7 +281,7 @@ PROPS["C13"] = {
              + [S("TestC13", 1, env={"VERIF_SCALE": "1E6"}, floor=1, weight=3), S("TestC13", 1, env={"VERIF_SCALE": "1E6", "VERIF_WORKERS": 1, "VERIF_MINFILES": 3}, floor=1, weight=2),
                 S("TestC13", 1, env={"VERIF_SCALE": "1E6", "VERIF_WORKERS": 1, "VERIF_MINFILES": 2, "VERIF_MAXFILES": 2, "VERIF_RACE_BIN": 1}, floor=1, weight=2)]
              + [S("TestC13", 2, env={"VERIF_SCALE": "1E8"}, floor=1, weight=2), S("TestC13", 1, env={"VERIF_SCALE": "1E8", "VERIF_WORKERS": 1, "VERIF_MINFILES": 2, "VERIF_RACE_BIN": 1}, floor=1, weight=2),
-                S("TestC13", 1, env={"VERIF_SCALE": "1E8hdr"}, floor=1), S("TestC13ManyFiles", floor=2, weight=2)],
+                S("TestC13", 1, env={"VERIF_SCALE": "1E8hdr"}, floor=1), S("TestC13ManyFiles", floor=2, weight=2), S("TestC13SlowFirst", floor=2, weight=2)],
     "thorough": [S("TestC13", 600, env={"VERIF_SCALE": "2E4"}, floor=150, timeout=3400) for _ in range(4)]
              + [S("TestC13", 60, env={"VERIF_SCALE": "2E4", "VERIF_RACE_BIN": 1}, floor=20, weight=2, timeout=3400), S("TestC13", 40, env={"VERIF_SCALE": "2E4", "VERIF_RACE_BIN": 1, "VERIF_WORKERS": 1, "VERIF_MINFILES": 3}, floor=10, weight=2, timeout=3400)]
              + [S("TestC13", 8, env={"VERIF_SCALE": "1E6"}, floor=3, weight=3, timeout=3400) for _ in range(2)]
@@ -287,7 +289,7 @@ PROPS["C13"] = {
              + [S("TestC13", 3, env={"VERIF_SCALE": "1E6", "VERIF_WORKERS": 1, "VERIF_MINFILES": 2, "VERIF_RACE_BIN": 1}, floor=1, weight=2, timeout=3400)]
              + [S("TestC13", 25, env={"VERIF_SCALE": "1E8"}, floor=8, weight=2, timeout=3400) for _ in range(2)]
              + [S("TestC13", 6, env={"VERIF_SCALE": "1E8", "VERIF_WORKERS": 1, "VERIF_MINFILES": 2, "VERIF_RACE_BIN": 1}, floor=2, weight=2, timeout=3400), S("TestC13", 3, env={"VERIF_SCALE": "1E8hdr"}, floor=1),
-                S("TestC13ManyFiles", floor=2, weight=2, env={"VERIF_FILES": 3000}, timeout=3400)],
+                S("TestC13ManyFiles", floor=2, weight=2, env={"VERIF_FILES": 3000}, timeout=3400), S("TestC13SlowFirst", floor=2, weight=2, timeout=3400)],
     "assumptions": ["the 10^8 scale is not run end to end (linear complexity m=5000 on 10^8 bits costs ~20 min per file): its worker is driven on short files, its header selection on sparse files",
                     "file names with commas/newlines are outside the property (the CSV would be unparseable)", "the expected value is by definition the library's exported function (the report is under test, not the statistic)",
                     "schedules of worker / writer / walker goroutines are sampled (worker counts, GOMAXPROCS, pinned 'one worker, several files' shards) and additionally observed by race-detector builds of the binary and of the shim"],
